@@ -357,6 +357,27 @@ def fragment_finding(ck, fid):
     return None
 
 
+_port_lock = []
+
+
+def claim_ports(ck):
+    """several checks of this property may run at the same time (other agents, alt trees): each run takes a block of 10 ports of the
+    property's range 21300-21399 under an exclusive file lock that it keeps until the process ends. Returns the first port or None."""
+    import fcntl
+    d = os.path.join(ck.verif, "build")
+    os.makedirs(d, exist_ok=True)
+    for k in range(1, 10):        # (21300-21309 is left to runs of older versions of this driver, which use it without a lock)
+        f = open(os.path.join(d, "c13-ports-%d.lock" % (21300 + 10 * k)), "w")
+        try:
+            fcntl.flock(f, fcntl.LOCK_EX | fcntl.LOCK_NB)
+        except OSError:
+            f.close()
+            continue
+        _port_lock.append(f)
+        return 21300 + 10 * k
+    return None
+
+
 def setup():
     return 0
 
@@ -483,7 +504,11 @@ def main(ck):
         open(p, "w").write(json.dumps(rp["history"]) + "\n")
         files, n = [p], 0
     conf = os.path.join(ck.repo, "config", "openGemini.singlenode.conf")
-    rc, out = ck.run([binp, srv, conf, str(PORT), str(n)] + files, timeout=1500)
+    port = claim_ports(ck)
+    if port is None:
+        ck.broken.append("C13 black box: all nine port blocks of 21310-21399 are in use by other runs of this check")
+        return
+    rc, out = ck.run([binp, srv, conf, str(port), str(n)] + files, timeout=1500)
     hs = [json.loads(l) for l in out.splitlines() if l.startswith('{"i"')]
     comp = None
     for l in out.splitlines():
@@ -604,9 +629,12 @@ def main(ck):
     validated = 0
     nviol = 0
     transient = []
+    undecided = []
     for hi, h in enumerate(hs):
         d = h["drop"]
         kinds[d["kind"]] = kinds.get(d["kind"], 0) + 1
+        if h.get("refused_write_attempts"):
+            undecided.append({"history": hi, "refused": h["refused_write_attempts"][:3]})       # recorded; the history is still judged
         if h["nontrivial"]:
             nontriv.add(json.dumps([h["series"], h["w1"], h["w2"], h["drop"], h["w3"]], sort_keys=True))
         transient += ["history %d: %s" % (hi, t) for t in h.get("transient") or []]
@@ -693,6 +721,7 @@ def main(ck):
                                     "history": {k: h[k] for k in ("db", "rp", "msts", "series", "w1", "w2", "prime", "drop", "w3")},
                                     "explanation": "no variant of the model reproduces the series sets the server returned, and every answer "
                                                    "matched the reference map"}
+    ck.cov["histories_with_a_refused_write_attempt"] = undecided
     ck.cov["compaction"] = comp
     if not getattr(ck, "replay", None) and n > 0 and (not comp or comp.get("dirs_with_compacted_file", 0) == 0):
         ck.broken.append("C13 black box: no level compaction was observed on disk within the bounded wait after %d write+flush rounds "
